@@ -71,7 +71,27 @@ def check_case(case) -> Outcome:
     out.nontrivial = nontrivial(fc)
     out.label("efr" if efr else "no-efr", "out:" + output)
     feat = dict(efr=efr, output=output)
-    mm = model_matrix(s, df, ensure_full_rank=efr, output=output)
+    if case.get("prime"):
+        # a preceding call in the same process on data where every column's kind is swapped
+        out.label("primed")
+        try:
+            import pandas as pd
+
+            sw = {c: ([float(i % 3) for i in range(5)] if v["dtype"] in ("object", "str", "category") or c == "G" else [["p", "q", "r"][i % 3] for i in range(5)]) for c, v in fr["cols"].items()}
+            model_matrix(s, pd.DataFrame(sw), ensure_full_rank=efr, output=output)
+        except Exception:
+            pass
+    if case.get("lhs"):
+        # the same numeric column, scaled by a literal, as the left-hand side of a two-sided formula
+        out.label("two-sided")
+        both = model_matrix(f"{case['lhs']}:x ~ {s}", df, ensure_full_rank=efr, output=output)
+        L = dense(both.lhs).reshape(fr["n"], -1)
+        expL = float(case["lhs"]) * E.numeric(fr, "x")
+        if list(both.lhs.model_spec.column_names) != ["x"] or L.shape != (fr["n"], 1) or not np.allclose(L[:, 0], expL, rtol=1e-9, atol=1e-9, equal_nan=True):
+            out.fail("lhs-scaled-column", f"{case['lhs']}:x ~ {s!r}: lhs {list(both.lhs.model_spec.column_names)} = {L.tolist()} expected {expL.tolist()}", efr=efr, output=output)
+        mm = both.rhs
+    else:
+        mm = model_matrix(s, df, ensure_full_rank=efr, output=output)
     names = list(mm.model_spec.column_names)
     got = dense(mm).reshape(fr["n"], -1)
     if output == "pandas" and list(mm.columns) != names:
@@ -144,11 +164,13 @@ def _is_lit(x):
 
 def gen(max_rows=12):
     return st.builds(
-        lambda fr, fc, efr, o: {"frame": fr, "formula": fc, "efr": efr, "output": o},
+        lambda fr, fc, efr, o, prime, lhs: {"frame": fr, "formula": fc, "efr": efr, "output": o, "prime": prime, "lhs": lhs},
         F.frame(max_rows=max_rows, index_kinds=("default", "default", "shuffled", "offset", "strings")),
         F.formulas(),
         st.booleans(),
         st.sampled_from(["pandas", "numpy", "sparse"]),
+        st.sampled_from([False, False, True]),
+        st.sampled_from([None, None, None, "2", "0.5"]),
     )
 
 
